@@ -9,7 +9,14 @@ use std::panic::AssertUnwindSafe;
 use saito_core::core::consensus::block::Block;
 use saito_core::core::consensus::slip::Slip;
 use saito_core::core::consensus::transaction::Transaction;
-use saito_core::core::util::crypto::verify_signature;
+use saito_core::core::consensus::peers::peer::Peer;
+use saito_core::core::consensus::peers::peer_collection::PeerCollection;
+use saito_core::core::consensus_thread::ConsensusEvent;
+use saito_core::core::defs::{StatVariable, STAT_BIN_COUNT};
+use saito_core::core::util::crypto::{hash, verify_signature};
+use saito_core::core::verification_thread::VerificationThread;
+use std::sync::Arc;
+use tokio::sync::RwLock;
 use verif_harness::chainsim::futures_catch;
 use verif_harness::common::{Args, Summary};
 use verif_harness::gal;
@@ -52,12 +59,105 @@ fn leaf_list(txs: &[Transaction], int: &mut Interner) -> String {
                 None => "None".to_string(),
             };
             format!(
-                "Merkle.mkTx {} {} 0 0 0 [] [] 0 0 {}",
+                "Merkle.mkTx {} {} 0 0 0 [] [] 0 0 0 {}",
                 t.transaction_type as u8, t.txs_replacements, hfs
             )
         })
         .collect();
     gal::list(&items)
+}
+
+/// The hash structure that proofs/HashBridge.v assumes of the code, evaluated with the real
+/// hash function: pre_hash = H(signed bytes), hash = H(prev ++ pre_hash), merkle root = the
+/// pairwise reduction with odd nodes carried up over the transactions' leaf hashes, a
+/// non-SPV leaf = H(signed bytes of the transaction) with a pre-image that is not 64 bytes
+/// long, and the merkle root sits at bytes 81..113 of the block's signed bytes.
+fn hash_structure_ok(b: &Block) -> (bool, Vec<u8>, Vec<u64>) {
+    let sb = b.serialize_for_signature();
+    let nums = vec![
+        b.graveyard,
+        b.treasury,
+        b.burnfee,
+        b.difficulty,
+        b.avg_fee_per_byte,
+        b.avg_nolan_rebroadcast_per_block,
+        b.previous_block_unpaid,
+        b.avg_total_fees,
+        b.avg_total_fees_new,
+        b.avg_total_fees_atr,
+        b.avg_payout_routing,
+        b.avg_payout_mining,
+    ];
+    let mut ok = sb.len() == 8 + 8 + 32 + 33 + 32 + 12 * 8;
+    let mut without_root = vec![];
+    if ok {
+        ok &= sb[81..113] == b.merkle_root;
+        without_root.extend(&sb[..81]);
+        without_root.extend(&sb[113..]);
+    }
+    ok &= b.pre_hash == hash(&sb);
+    let mut v = b.previous_block_hash.to_vec();
+    v.extend(&b.pre_hash);
+    ok &= b.hash == hash(&v);
+    // concrete merkle root (HashBridge.cmerkle_root) over the leaf values
+    let mut level: Vec<[u8; 32]> = vec![];
+    for t in &b.transactions {
+        let sfs = t.serialize_for_signature();
+        match t.hash_for_signature {
+            Some(h) => {
+                if t.transaction_type as u8 != 5 {
+                    ok &= h == hash(&sfs) && sfs.len() != 64;
+                }
+                let r = if t.txs_replacements > 1 { t.txs_replacements as usize } else { 1 };
+                for _ in 0..r {
+                    level.push(h);
+                }
+            }
+            None => ok = false,
+        }
+    }
+    if !level.is_empty() {
+        while level.len() > 1 {
+            let mut next = vec![];
+            for c in level.chunks(2) {
+                if c.len() == 2 {
+                    let mut x = c[0].to_vec();
+                    x.extend(&c[1]);
+                    next.push(hash(&x));
+                } else {
+                    next.push(c[0]);
+                }
+            }
+            level = next;
+        }
+        ok &= level[0] == b.generate_merkle_root(false, false);
+    }
+    (ok, without_root, nums)
+}
+
+/// one Coq case: ((header list, carried list, sig_ok), expected verdict, header fields + signed bytes + structure bit)
+fn model_case(b: &Block, hdr_list: &[Transaction], sig_ok: bool, root_ok: bool) -> (String, bool) {
+    let mut int = Interner::default();
+    let hdr_g = leaf_list(hdr_list, &mut int);
+    let txs_g = leaf_list(&b.transactions, &mut int);
+    let (struct_ok, sb_wo_root, nums) = hash_structure_ok(b);
+    (
+        format!(
+            "(({}, {}, {}), {}, (({}, {}, {}%string, {}%string, {}), {}%string, {}))",
+            hdr_g,
+            txs_g,
+            gal::boolean(sig_ok),
+            gal::boolean(root_ok && sig_ok),
+            b.id,
+            b.timestamp,
+            gal::hex(&b.previous_block_hash),
+            gal::hex(&b.creator),
+            gal::nlist(&nums),
+            gal::hex(&sb_wo_root),
+            gal::boolean(struct_ok)
+        ),
+        struct_ok,
+    )
 }
 
 const EDITS: &[&str] = &[
@@ -75,6 +175,24 @@ const EDITS: &[&str] = &[
     "zero-merkle-root-field",
     "substitute-equal-amount-input",
     "insert-zero-replacement-tx",
+    // the transaction list is edited AND the header's merkle root field is rewritten to match
+    // (the header signature cannot be renewed by a third party)
+    "swap-two-txs-rewrite-root",
+    "remove-tx-rewrite-root",
+    // same header, same pre-hash, same hash; only the signature is by another key
+    "resign-other-key-only",
+    // one signed field of a transaction changed after signing; transaction signature and header kept
+    "tamper-tx-timestamp",
+    "tamper-tx-data",
+    "tamper-tx-output-key",
+    "tamper-tx-output-amount",
+    "tamper-tx-output-type",
+    "tamper-tx-replacements",
+    "tamper-tx-type",
+    "tamper-tx-input-amount",
+    // the signed bytes of a transaction do not delimit inputs from outputs: the (single) output
+    // to the sender becomes a second input naming another of its outputs of that amount and index
+    "move-output-to-input",
 ];
 
 #[tokio::main(flavor = "current_thread")]
@@ -146,6 +264,45 @@ async fn main() {
                         t.generate(&w.node.pk, 0, 0);
                         b.transactions.insert(n0 + 1, t);
                     }
+                    "swap-two-txs-rewrite-root" => {
+                        b.transactions.swap(n0, n0 + 1);
+                        b.merkle_root = b.generate_merkle_root(false, false);
+                    }
+                    "remove-tx-rewrite-root" => {
+                        b.transactions.remove(n0);
+                        b.merkle_root = b.generate_merkle_root(false, false);
+                    }
+                    "resign-other-key-only" => b.sign(&other.1),
+                    "tamper-tx-timestamp" => b.transactions[n0].timestamp += 1,
+                    "tamper-tx-data" => b.transactions[n0].data.push(7),
+                    "tamper-tx-output-key" => b.transactions[n0].to[0].public_key = other.0,
+                    "tamper-tx-output-amount" => b.transactions[n0].to[0].amount -= 1,
+                    "tamper-tx-output-type" => {
+                        b.transactions[n0].to[0].slip_type = saito_core::core::consensus::slip::SlipType::MinerOutput
+                    }
+                    "tamper-tx-replacements" => b.transactions[n0].txs_replacements = 0,
+                    "tamper-tx-type" => {
+                        b.transactions[n0].transaction_type = saito_core::core::consensus::transaction::TransactionType::Vip
+                    }
+                    "tamper-tx-input-amount" => {
+                        b.transactions[n0].from[0].amount += 1;
+                        b.transactions[n0].from[0].generate_utxoset_key();
+                    }
+                    "move-output-to-input" => {
+                        let out = b.transactions[n0].to[0].clone();
+                        let cur = b.transactions[n0].from[0].clone();
+                        if let Some(alt) = w.slips.iter().skip(ntx).find(|s| {
+                            s.amount == out.amount
+                                && s.slip_index == out.slip_index
+                                && s.public_key == out.public_key
+                                && s.utxoset_key != cur.utxoset_key
+                        }) {
+                            let mut alt = alt.clone();
+                            alt.generate_utxoset_key();
+                            b.transactions[n0].from.push(alt);
+                            b.transactions[n0].to.clear();
+                        }
+                    }
                     "substitute-equal-amount-input" => {
                         // another unspent output of the same owner with the same amount and slip index:
                         // the signed bytes of an input omit block id and transaction ordinal
@@ -166,7 +323,7 @@ async fn main() {
                 let content_of = |bl: &Block| {
                     bl.transactions
                         .iter()
-                        .map(|t| (t.signature, t.from.iter().map(|s| s.get_utxoset_key()).collect::<Vec<_>>()))
+                        .map(|t| (t.serialize_for_net(), t.from.iter().map(|s| s.get_utxoset_key()).collect::<Vec<_>>()))
                         .collect::<Vec<_>>()
                 };
                 let content_changed = content_of(&b) != content_of(&original);
@@ -175,17 +332,10 @@ async fn main() {
                 let sig_ok = verify_signature(&b.pre_hash, &b.signature, &b.creator);
                 // model case: header root term = root of the list the header was made from
                 // (the original list, unless the root field itself was zeroed and regenerated)
-                let mut int = Interner::default();
-                let hdr_list = if *edit == "zero-merkle-root-field" { &b.transactions } else { &original.transactions };
-                let hdr_g = leaf_list(hdr_list, &mut int);
-                let txs_g = leaf_list(&b.transactions, &mut int);
-                coq_cases.push(format!(
-                    "(({}, {}, {}), {})",
-                    hdr_g,
-                    txs_g,
-                    gal::boolean(sig_ok),
-                    gal::boolean(root_ok && sig_ok)
-                ));
+                let hdr_list = if *edit == "zero-merkle-root-field" || edit.ends_with("-rewrite-root") { &b.transactions } else { &original.transactions };
+                let (case_g, struct_ok) = model_case(&b, hdr_list, sig_ok, root_ok);
+                summary.count("hash_structure_ok", &format!("{}", struct_ok));
+                coq_cases.push(case_g);
                 let desc = format!(
                     "{{\"case\":{},\"edit\":\"{}\",\"order\":\"{}\",\"genesis_period\":{},\"chain_len\":{},\"txs\":{},\"same_hash_as_original\":{},\"content_changed\":{}}}",
                     case_no, edit, first, gp, len + 1, ntx, same_hash, content_changed
@@ -287,18 +437,205 @@ async fn main() {
             }
         }
     }
+
+    // ---- scripted: the first block of a chain (the only block that may legally be empty) ----
+    // a signed genesis block with every transaction stripped and the header untouched keeps its
+    // hash; a fresh node must refuse it and afterwards accept the genuine block
+    for gi in 0..(if thorough { 8 } else { 3 }) {
+        let gp = [20u64, 8, 5][gi % 3];
+        let mut wrng = Rng::new(args.seed * 104_729 + gi as u64);
+        let w = build_world(gp, 1, &mut wrng).await;
+        let gh = w.node.blockchain.blockring.get_longest_chain_block_hash_at_block_id(1).unwrap_or([0; 32]);
+        let genesis = match w.node.blockchain.get_block(&gh) {
+            Some(g) => g.clone(),
+            None => {
+                summary.oracle_failure(case_no, "harness: genesis block not found on the builder", "{}");
+                continue;
+            }
+        };
+        for variant in ["strip-all-txs", "strip-all-but-first"] {
+            let mut edited = genesis.clone();
+            edited.in_longest_chain = false;
+            match variant {
+                "strip-all-txs" => edited.transactions.clear(),
+                _ => edited.transactions.truncate(1),
+            }
+            let _ = edited.generate();
+            let same_hash = edited.hash == genesis.hash;
+            let root_ok = edited.merkle_root == edited.generate_merkle_root(false, false);
+            let sig_ok = verify_signature(&edited.pre_hash, &edited.signature, &edited.creator);
+            let (case_g, struct_ok) = model_case(&edited, &genesis.transactions, sig_ok, root_ok);
+            summary.count("hash_structure_ok", &format!("{}", struct_ok));
+            coq_cases.push(case_g);
+            let desc = format!(
+                "{{\"case\":{},\"edit\":\"genesis-{}\",\"order\":\"fresh-node\",\"genesis_period\":{},\"txs_in_genesis\":{},\"same_hash_as_original\":{}}}",
+                case_no,
+                variant,
+                gp,
+                genesis.transactions.len(),
+                same_hash
+            );
+            let params = Params { genesis_period: gp, ..Params::default() };
+            let mut fresh = Node::new(&params, 1);
+            let r = futures_catch(AssertUnwindSafe(fresh.add_block(edited.clone()))).await;
+            summary.count("edit", &format!("genesis-{}", variant));
+            summary.count("result", &format!("genesis-{}:fresh-node:{:?}", variant, r));
+            match r {
+                Err(m) => summary.oracle_failure(case_no, &format!("[genesis-{}] add_block panicked: {}", variant, m), &desc),
+                Ok(AddClass::OnChain) => summary.oracle_failure(
+                    case_no,
+                    &format!(
+                        "[genesis-{}] first block with {} of its {} transactions removed was accepted under the original hash ({})",
+                        variant,
+                        genesis.transactions.len() - edited.transactions.len(),
+                        genesis.transactions.len(),
+                        same_hash
+                    ),
+                    &desc,
+                ),
+                Ok(_) => {
+                    let mut g = genesis.clone();
+                    g.in_longest_chain = false;
+                    let r2 = futures_catch(AssertUnwindSafe(fresh.add_block(g))).await;
+                    if r2 != Ok(AddClass::OnChain) {
+                        summary.oracle_failure(
+                            case_no,
+                            &format!("[genesis-{}] genuine first block refused after the stripped copy was offered: {:?}", variant, r2),
+                            &desc,
+                        );
+                    }
+                }
+            }
+            if distinct.insert(format!("genesis{}{}", variant, gp)) {
+                summary.nontrivial += 1;
+            }
+            summary.case_descs.push(desc);
+            case_no += 1;
+        }
+    }
+
+    // ---- scripted: the fetched block must be the advertised one (VerificationThread::verify_block) ----
+    // a peer announces (id, hash) of block A and serves other bytes: nothing may reach consensus and
+    // the peer's invalid-block counter moves; the honest answer is forwarded under the advertised hash
+    {
+        let mut wrng = Rng::new(args.seed * 15_485_863 + 5);
+        let w = build_world(8, 3, &mut wrng).await;
+        let a = w.tip.clone();
+        let pa = w.node.blockchain.get_block(&a.previous_block_hash).cloned().unwrap();
+        let (tx_cons, mut rx_cons) = tokio::sync::mpsc::channel::<ConsensusEvent>(100);
+        let (tx_stat, _rx_stat) = tokio::sync::mpsc::channel::<String>(10_000);
+        let mut peers = PeerCollection::default();
+        peers.index_to_peers.insert(1, Peer::new(1));
+        let peers = Arc::new(RwLock::new(peers));
+        let params = Params { genesis_period: 8, ..Params::default() };
+        let scratch = Node::new(&params, 3);
+        let sv = |n: &str| StatVariable::new(n.to_string(), STAT_BIN_COUNT, tx_stat.clone());
+        let mut vt = VerificationThread {
+            sender_to_consensus: tx_cons.clone(),
+            blockchain_lock: Arc::new(RwLock::new(scratch.blockchain)),
+            peer_lock: peers.clone(),
+            wallet_lock: scratch.wallet_lock.clone(),
+            processed_txs: sv("v::txs"),
+            processed_blocks: sv("v::blocks"),
+            processed_msgs: sv("v::msgs"),
+            invalid_txs: sv("v::invalid"),
+            stat_sender: tx_stat.clone(),
+        };
+        let a_bytes = a.serialize_for_net(saito_core::core::consensus::block::BlockType::Full);
+        let pa_bytes = pa.serialize_for_net(saito_core::core::consensus::block::BlockType::Full);
+        let half_bytes = a_bytes[..a_bytes.len() / 2].to_vec();
+        let mut flipped = a.hash;
+        flipped[31] ^= 1;
+        // (what, served bytes, advertised id, advertised hash, must be forwarded)
+        let probes: Vec<(&str, &Vec<u8>, u64, [u8; 32], bool)> = vec![
+            ("honest", &a_bytes, a.id, a.hash, true),
+            ("other-block-under-advertised-hash", &pa_bytes, a.id, a.hash, false),
+            ("same-id-other-hash", &pa_bytes, pa.id, a.hash, false),
+            ("same-hash-other-id", &a_bytes, a.id + 1, a.hash, false),
+            ("hash-one-bit-off", &a_bytes, a.id, flipped, false),
+            ("truncated", &half_bytes, a.id, a.hash, false),
+        ];
+        for (what, bytes, id, h, want) in probes {
+            {
+                let mut p = peers.write().await;
+                let peer = p.index_to_peers.get_mut(&1).unwrap();
+                peer.invalid_block_limiter = saito_core::core::consensus::peers::rate_limiter::RateLimiter::builder(1, std::time::Duration::from_secs(3600));
+            }
+            let r = futures_catch(AssertUnwindSafe(vt.verify_block(bytes, 1, h, id))).await;
+            let mut forwarded = None;
+            while let Ok(ev) = rx_cons.try_recv() {
+                if let ConsensusEvent::BlockFetched { block, .. } = ev {
+                    forwarded = Some((block.id, block.hash));
+                }
+            }
+            let counted = {
+                let mut p = peers.write().await;
+                p.index_to_peers.get_mut(&1).unwrap().invalid_block_limiter.has_limit_exceeded(0)
+            };
+            let desc = format!(
+                "{{\"case\":{},\"edit\":\"fetch-{}\",\"order\":\"verify_block\",\"advertised_id\":{},\"forwarded\":{},\"peer_counted_invalid\":{}}}",
+                case_no,
+                what,
+                id,
+                forwarded.is_some(),
+                counted
+            );
+            summary.count("edit", &format!("fetch-{}", what));
+            summary.count("result", &format!("fetch-{}:verify_block:forwarded={} counted={}", what, forwarded.is_some(), counted));
+            if let Err(m) = r {
+                summary.oracle_failure(case_no, &format!("[fetch-{}] verify_block panicked: {}", what, m), &desc);
+            } else if want {
+                if forwarded != Some((id, h)) {
+                    summary.oracle_failure(case_no, &format!("[fetch-{}] the honestly served block was not forwarded under its advertised id/hash: {:?}", what, forwarded.map(|x| x.0)), &desc);
+                }
+                if counted {
+                    summary.oracle_failure(case_no, &format!("[fetch-{}] honest peer was counted as serving an invalid block", what), &desc);
+                }
+            } else {
+                if let Some((fid, fh)) = forwarded {
+                    summary.oracle_failure(
+                        case_no,
+                        &format!(
+                            "[fetch-{}] a block other than the advertised one reached consensus: advertised ({}, {}..), forwarded ({}, {}..)",
+                            what,
+                            id,
+                            hex::encode(&h[..4]),
+                            fid,
+                            hex::encode(&fh[..4])
+                        ),
+                        &desc,
+                    );
+                }
+                if !counted {
+                    summary.oracle_failure(case_no, &format!("[fetch-{}] serving a block that is not the advertised one was not counted against the peer", what), &desc);
+                }
+            }
+            // model side: trivial case (unedited block A) so that case numbers stay aligned
+            let sig_ok = verify_signature(&a.pre_hash, &a.signature, &a.creator);
+            let root_ok = a.merkle_root == a.generate_merkle_root(false, false);
+            let (case_g, _) = model_case(&a, &a.transactions, sig_ok, root_ok);
+            coq_cases.push(case_g);
+            if distinct.insert(format!("fetch{}", what)) && !want {
+                summary.nontrivial += 1;
+            }
+            summary.case_descs.push(desc);
+            case_no += 1;
+        }
+    }
     summary.evaluations = case_no as u64;
-    let header = "From Saito Require Import Base Merkle BlockId.\n\
-        Definition check (c : (list Merkle.tx * list Merkle.tx * bool) * bool) : bool :=\n\
-        let '((hdr_txs, txs, sig_ok), expected) := c in\n\
+    let header = "From Saito Require Import Base Bytes Merkle BlockId.\nFrom Coq Require Import String.\n\
+        Definition check (c : (list Merkle.tx * list Merkle.tx * bool) * bool * ((N * N * String.string * String.string * list N) * String.string * bool)) : bool :=\n\
+        let '((hdr_txs, txs, sig_ok), expected, ((id, ts, prev, creator, nums), signed_wo_root, struct_ok)) := c in\n\
         match merkle_root_of hdr_txs with\n\
         | Ok r => Bool.eqb (identity_checks (mkAB (mkH 0 0 [] [] r []) txs sig_ok)) expected\n\
+                  && eqb_lN (hdr_bytes (mkH id ts (of_hex prev) (of_hex creator) r nums)) (of_hex signed_wo_root)\n\
+                  && struct_ok\n\
         | _ => false end.";
     let files = gal::write_shards(
         &format!("{}/cases", args.out),
         "C06",
         header,
-        "(list Merkle.tx * list Merkle.tx * bool) * bool",
+        "(list Merkle.tx * list Merkle.tx * bool) * bool * ((N * N * String.string * String.string * list N) * String.string * bool)",
         &coq_cases,
         args.shards,
     )
